@@ -559,7 +559,11 @@ func (vc *VC) newObject(st *State, prefix string, dyn types.Type, kinds []Kind) 
 	r := vc.fresh("ref."+prefix, "Int")
 	vc.assume(st, tEq(r, a))
 	if dyn != nil {
-		vc.assume(st, tEq(sx("dtype", r), tInt(int64(vc.p.typeID(dyn)))))
+		id := vc.p.objID(dyn)
+		if strings.HasPrefix(prefix, "cell.") {
+			id = vc.p.typeID(dyn)
+		}
+		vc.assume(st, tEq(sx("dtype", r), tInt(int64(id))))
 	}
 	vc.set(st, ak, tAdd(r, "1"))
 	seen := map[Kind]bool{}
@@ -603,7 +607,7 @@ func (vc *VC) wellTypedAt(st *State, t types.Type, s []Term, depth int) Term {
 				if hs := vc.p.holderTypes(u.Elem()); hs != nil {
 					var alts []Term
 					for _, h := range hs {
-						dt := tEq(sx("dtype", s[0]), tInt(int64(vc.p.typeID(h))))
+						dt := tEq(sx("dtype", s[0]), tInt(int64(vc.p.objID(h))))
 						// offsets at which the pointee can sit inside the holder
 						if _, isSt := h.Underlying().(*types.Struct); isSt {
 							offs := vc.p.offsetsOf(h, u.Elem(), 0, 0)
@@ -624,7 +628,7 @@ func (vc *VC) wellTypedAt(st *State, t types.Type, s []Term, depth int) Term {
 		return tOr(tAnd(tEq(s[0], "0"), tEq(s[1], "0")), tAnd(c...))
 	case *types.Slice:
 		return tAnd(tLe("0", s[2]), tLe(s[2], s[3]), tLe("0", s[1]),
-			tOr(tAnd(tEq(s[0], "0"), tEq(s[3], "0"), tEq(s[1], "0")), tAnd(tNot(tEq(s[0], "0")), vc.isAlloc(st, s[0]), tEq(sx("dtype", s[0]), tInt(int64(vc.p.typeID(t)))))))
+			tOr(tAnd(tEq(s[0], "0"), tEq(s[3], "0"), tEq(s[1], "0")), tAnd(tNot(tEq(s[0], "0")), vc.isAlloc(st, s[0]), tEq(sx("dtype", s[0]), tInt(int64(vc.p.objID(t)))))))
 	case *types.Map:
 		return tOr(tEq(s[0], "0"), tAnd(tLt("0", s[0]), vc.isAlloc(st, s[0]), tEq(sx("dtype", s[0]), tInt(int64(vc.p.typeID(t))))))
 	case *types.Interface, *types.TypeParam:
